@@ -1001,6 +1001,13 @@ func (ts *Service) handleUpdateTask(w http.ResponseWriter, r *http.Request) {
 	}
 
 	associationChanged := original.ID != updated.ID || original.TemplateID != updated.TemplateID
+	if original.ID != updated.ID {
+		// A rename to an ID that is taken is rejected before anything is written for that ID.
+		if _, err := ts.tasks.Get(updated.ID); err == nil {
+			httpd.HttpError(w, fmt.Sprintf("failed to create new task during ID change: %s", ErrTaskExists.Error()), true, http.StatusInternalServerError)
+			return
+		}
+	}
 	if updated.TemplateID != "" {
 		// Associate before saving, see handleCreateTask. Also when nothing changed: writing the association
 		// again is harmless, and it is missing when the template was deleted and created again.
